@@ -410,8 +410,12 @@ func (e *Explorer) account(t *testing.T, x *X, pan any, stack string) {
 			}
 		}
 		if s2 := sigSet(y.fails); s2 != sigs {
+			first := ""
+			if len(x.fails) > 0 {
+				first = trunc(x.fails[0].Message, 1500)
+			}
 			e.res.HarnessErrs = append(e.res.HarnessErrs,
-				fmt.Sprintf("nondeterministic verdict for choices %v: %q vs %q", picks(x.Trace), sigs, s2))
+				fmt.Sprintf("nondeterministic verdict for choices %v: %q vs %q; first run reported: %s", picks(x.Trace), sigs, s2, first))
 			return
 		}
 	}
